@@ -1016,7 +1016,11 @@ private theorem inv_boot {s : State} (hs : Inv s) (single : Bool) (name : Id) (h
   unfold loadBeaconsFromDisk
   split
   · exact hs
-  · exact inv_loadEach single name (bootStores s) s hs hb.1 hb.2
+  · simp only
+    split
+    · exact inv_loadEach single name (bootStores s) _
+        (inv_congr (s := s) (fun _ => rfl) (fun _ => rfl) (fun _ => rfl) hs) hb.1 hb.2
+    · exact inv_loadEach single name (bootStores s) s hs hb.1 hb.2
 
 /-- what a history must satisfy beyond the guards the code itself applies -/
 def EvOK (s : State) : Ev → Prop
